@@ -140,6 +140,7 @@ def run_checks(names):
             print(rows[-1], flush=True)
         finally:
             sh(["git", "checkout", "--", "."], cwd="/repo")
+            sh(["git", "clean", "-fdq", "src"], cwd="/repo")  # files a patch added
     if not names:
         with open(os.path.join(SEEDED, "RESULTS.md"), "w") as f:
             f.write("| seeded change | property | quick checks | first report |\n|---|---|---|---|\n")
